@@ -47,22 +47,23 @@ Proof.
 Qed.
 Print Assumptions C04_roundtrip.
 
-(* Termination.  The iteration is a contraction (factor < 0.0069) whose first step moves the latitude by less
-   than 0.0069 rad, so the test |lat - lat2| < 1e-10 succeeds at the fifth test at the latest. *)
-Theorem C04_loop_terminates : forall x y z d, 0 < x * x + y * y -> XKMPER * XKMPER <= x * x + y * y + z * z ->
+(* Termination.  For every position off the polar axis and at least sqrt(0.993) * 6378.135 = 6355.8 km from the centre (every
+   point on or outside the WGS-84 ellipsoid) the iteration is a contraction (factor < 0.0069) whose first step moves the latitude
+   by less than 0.0069 rad, so the test |lat - lat2| < 1e-10 succeeds at the fifth test at the latest. *)
+Theorem C04_loop_terminates : forall x y z d, 0 < x * x + y * y -> 993 / 1000 * (XKMPER * XKMPER) <= x * x + y * y + z * z ->
   gen_lla_exit_p1 x y z d \/ gen_lla_exit_p2 x y z d \/ gen_lla_exit_p3 x y z d \/
   gen_lla_exit_p4 x y z d \/ gen_lla_exit_p5 x y z d.
 Proof. exact loop_exits_by_5. Qed.
 Print Assumptions C04_loop_terminates.
 
-Theorem C04_module_loop_terminates : forall x y z d, 0 < x * x + y * y -> XKMPER * XKMPER <= x * x + y * y + z * z ->
+Theorem C04_module_loop_terminates : forall x y z d, 0 < x * x + y * y -> 993 / 1000 * (XKMPER * XKMPER) <= x * x + y * y + z * z ->
   gen_geoloc_lla_exit_p1 x y z d \/ gen_geoloc_lla_exit_p2 x y z d \/ gen_geoloc_lla_exit_p3 x y z d \/
   gen_geoloc_lla_exit_p4 x y z d \/ gen_geoloc_lla_exit_p5 x y z d.
 Proof. exact module_loop_exits_by_5. Qed.
 Print Assumptions C04_module_loop_terminates.
 
 (* total form of the round trip: an exit is taken and its result converts back to the position *)
-Theorem C04_roundtrip_total : forall x y z d, 0 < x * x + y * y -> XKMPER * XKMPER <= x * x + y * y + z * z ->
+Theorem C04_roundtrip_total : forall x y z d, 0 < x * x + y * y -> 993 / 1000 * (XKMPER * XKMPER) <= x * x + y * y + z * z ->
   (gen_lla_exit_p1 x y z d /\ roundtrip_ok x y z d (gen_lla_lat_p1 x y z d) (gen_lla_alt_p1 x y z d)) \/
   (gen_lla_exit_p2 x y z d /\ roundtrip_ok x y z d (gen_lla_lat_p2 x y z d) (gen_lla_alt_p2 x y z d)) \/
   (gen_lla_exit_p3 x y z d /\ roundtrip_ok x y z d (gen_lla_lat_p3 x y z d) (gen_lla_alt_p3 x y z d)) \/
